@@ -373,7 +373,7 @@ def one_config(runno, opts, T, timed):
         need = A + base + A * ppm // 10**6
         # a. declared total too low -> fee failure carrying the advertised policy
         pl.send(patched(T["ok"], "a", 1, A - 1, A - 1, height + 70000, 70000))
-        o = answer_of(pl, "a", 5.0)
+        o = answer_of(pl, "a", 20.0)
         if o and isinstance(o.get("result"), dict) and o["result"].get("result") == "fail":
             rec["feebytes"] = list(bytes.fromhex(o["result"]["failure_message"]))
         def quiesce():
@@ -391,7 +391,7 @@ def one_config(runno, opts, T, timed):
             quiesce()
             n0 = len([c for c in pl.node.calls if c[0] == "pay"])
             pl.send(patched(T["ok"], rid, hid, need, need, exp, 70000))
-            answer_of(pl, rid, 6.0)
+            answer_of(pl, rid, 20.0)
             pays = [c for c in pl.node.calls if c[0] == "pay"]
             return pays[n0][1] if len(pays) > n0 else None
         # b. far expiry: the policy delta caps the route delay
@@ -412,7 +412,7 @@ def one_config(runno, opts, T, timed):
         quiesce()
         n0 = len([c for c in pl.node.calls if c[0] == "pay"])
         pl.send(patched(T["hint"], "d", 4, need, need, height + sd + pd + 1000, 70000))
-        o = answer_of(pl, "d", 6.0)
+        o = answer_of(pl, "d", 20.0)
         paid = len([c for c in pl.node.calls if c[0] == "pay"]) > n0
         if paid:
             rec["hint"] = "held"
@@ -426,11 +426,11 @@ def one_config(runno, opts, T, timed):
             quiesce()
             t0 = time.time()
             pl.send(patched(T["ok"], "e", 5, need - 1, need, height + sd + pd + 1000, 70000))
-            wait = (mpp + 2.0) if mpp <= 2 else 2.5
+            wait = (mpp + 3.5) if mpp <= 2 else 2.5
             o = answer_of(pl, "e", wait)
             dt = time.time() - t0
             if mpp <= 2:
-                rec["mppclass"] = "late" if o is None else ("early" if dt < mpp - 0.2 else "ontime" if dt <= mpp + 1.2 else "late")
+                rec["mppclass"] = "late" if o is None else ("early" if dt < mpp - 0.2 else "ontime" if dt <= mpp + 3.0 else "late")
             else:
                 rec["mppclass"] = "na" if o is None else "early"
         return rec
@@ -533,7 +533,7 @@ def iso_check(seed, tier, wd):
             pl.send(patched(T["ok"], "A1", 1, need, need, 1000 + 34 + 1008 + 500, 70000))
             time.sleep(0.4)
             pl.send(patched(T["other"], "B1", 2, need, need, 1000 + 34 + 1008 + 500, 70000))
-            fr = pl.read_frames(lambda f: any(ok and o.get("id") == "B1" for ok, o in f), 4.0)
+            fr = pl.read_frames(lambda f: any(ok and o.get("id") == "B1" for ok, o in f), 15.0)
             waits = len([c for c in pl.node.calls if c[0] == "waitsendpay"])
             recs.append({"ev": "e2e", "run": runno, "sent": ['"B1"'], "leftover": pl.leftover(), "a_waits": waits,
                          "frames": [{"json": ok, "id": json.dumps(o.get("id")) if ok and "id" in o else "none",
@@ -545,7 +545,7 @@ def iso_check(seed, tier, wd):
     # payment A is an incomplete set of many parts waiting for its MPP timeout (every one of its hook calls is
     # unanswered); payment B must still be settled at once
     for runno, nA in enumerate((4, 6, 9), len(recs) + 1):
-        pl = Plugin(options={OPT[k]: v for k, v in dict(DEFAULTS, mpp=6).items()}, height=1000)
+        pl = Plugin(options={OPT[k]: v for k, v in dict(DEFAULTS, mpp=40).items()}, height=1000)
         pl.node.node_id = T["local"]
         try:
             preB = T["preimages"][2]
@@ -558,7 +558,7 @@ def iso_check(seed, tier, wd):
                 pl.send(patched(T["ok"], "A%d" % k, k + 1, share, need, 1000 + 34 + 1008 + 500, 70000))
             time.sleep(0.4)
             pl.send(patched(T["other"], "B1", 50, need, need, 1000 + 34 + 1008 + 500, 70000))
-            fr = pl.read_frames(lambda f: any(ok and o.get("id") == "B1" for ok, o in f), 3.0)
+            fr = pl.read_frames(lambda f: any(ok and o.get("id") == "B1" for ok, o in f), 15.0)
             fr = [(ok, o) for ok, o in fr if not (ok and isinstance(o.get("id"), str) and o.get("id", "").startswith("A"))]
             recs.append({"ev": "e2e", "run": runno, "sent": ['"B1"'], "leftover": pl.leftover(), "a_parts": nA,
                          "expect": [{"id": '"B1"', "result": "resolve"}],
@@ -602,7 +602,7 @@ def codes_check(seed, tier, wd):
                 raise run.ToolError("real binary did not start for the part-code scenario")
             A = T["A"]; need = A + A * 5000 // 10**6
             pl.send(patched(T["ok"], "A1", 1, need, need, 1000 + 34 + 1008 + 500, 70000))
-            fr = pl.read_frames(lambda f: any(ok and o.get("id") == "A1" for ok, o in f), 4.0)
+            fr = pl.read_frames(lambda f: any(ok and o.get("id") == "A1" for ok, o in f), 15.0)
             recs.append({"ev": "e2e", "run": runno, "sent": ['"A1"'], "leftover": pl.leftover(), "code": code,
                          "expect": [{"id": '"A1"', "result": "resolve"}],
                          "frames": [{"json": ok, "id": json.dumps(o.get("id")) if ok and "id" in o else "none",
@@ -637,7 +637,7 @@ def lostreply_check(seed, tier, wd):
                 raise run.ToolError("real binary did not start for the lost-reply scenario")
             A = T["A"]; need = A + A * 5000 // 10**6
             pl.send(patched(T["ok"], "A1", 1, need, need, 1000 + 34 + 1008 + 500, 70000))
-            fr = pl.read_frames(lambda f: any(ok and o.get("id") == "A1" for ok, o in f), 4.0)
+            fr = pl.read_frames(lambda f: any(ok and o.get("id") == "A1" for ok, o in f), 15.0)
             time.sleep(0.3)
             pays = len([c for c in pl.node.calls if c[0] == "pay"])
             recs.append({"ev": "e2e", "run": runno, "sent": ['"A1"'], "leftover": pl.leftover(), "pay_calls": pays, "pay_calls_max": 1,
@@ -679,7 +679,7 @@ def burst_check(seed, tier, wd):
                 rid = "p%d" % k
                 ids.append(rid)
                 pl.send(patched(T["ok"], rid, k + 1, amt, need, 1000 + 34 + 1008 + 500, 70000))
-            fr = pl.read_frames(lambda f: sum(1 for ok, o in f if ok and o.get("id") in ids) >= len(ids), 5.0)
+            fr = pl.read_frames(lambda f: sum(1 for ok, o in f if ok and o.get("id") in ids) >= len(ids), 20.0)
             recs.append({"ev": "e2e", "run": runno, "sent": [json.dumps(i) for i in ids], "leftover": pl.leftover(),
                          "frames": [{"json": ok, "id": json.dumps(o.get("id")) if ok and "id" in o else "none",
                                      "kind": ("result" if ok and "result" in o else "error" if ok and "error" in o else "notification" if ok and "method" in o else "garbage"),
